@@ -21,6 +21,9 @@ A case function returns a dict:
 import hashlib, itertools, json, multiprocessing as mp, os, signal, sys, time, traceback
 
 
+_VERIF_DIR = os.path.dirname(os.path.dirname(os.path.abspath(__file__)))
+
+
 class Horizon(Exception):
     pass
 
@@ -55,6 +58,10 @@ def _run_one(sec, case):
     except Horizon:
         r = {"ok": False, "inconclusive": "horizon %ss exceeded" % sec.horizon}
     except Exception as e:  # a crash of the oracle/harness or an unexpected library exception
+        tb = traceback.extract_tb(e.__traceback__)
+        if tb and tb[-1].filename.startswith(_VERIF_DIR) and isinstance(e, (ImportError, NameError, AttributeError, KeyError, IndexError, TypeError, AssertionError)):
+            # raised by harness code itself (not inside the library): a harness error, never a verdict
+            return {"ok": False, "inconclusive": "harness exception %s: %s at %s:%d" % (type(e).__name__, e, tb[-1].filename, tb[-1].lineno), "_t": time.time() - t0}
         r = {"ok": False, "msg": "unexpected exception %s: %s" % (type(e).__name__, e),
              "observed": traceback.format_exc()[-1500:], "sig": "exception:" + type(e).__name__}
     finally:
